@@ -492,11 +492,7 @@ func (ca *ConnlistAnalyzer) getConnectionsList(pe *eval.PolicyEngine, ia *ingres
 // or if it exists in the peers list from the parsed resources
 // if not returns a suitable warning message
 func (ca *ConnlistAnalyzer) existsFocusWorkload(excludeIngressAnalysis bool) (existFocusWorkload bool, warning string) {
-	if ca.focusWorkload == common.IngressPodName {
-		if excludeIngressAnalysis { // if the ingress-analyzer is empty,
-			// then no routes/k8s-ingress objects -> ingress-controller pod will not be added
-			return false, netpolerrors.NoIngressSourcesErrStr + netpolerrors.EmptyConnListErrStr
-		}
+	if ca.focusWorkload == common.IngressPodName && !excludeIngressAnalysis {
 		return true, ""
 	}
 
@@ -505,6 +501,10 @@ func (ca *ConnlistAnalyzer) existsFocusWorkload(excludeIngressAnalysis bool) (ex
 		if ca.isPeerFocusWorkload(peer) {
 			return true, ""
 		}
+	}
+	if ca.focusWorkload == common.IngressPodName { // the ingress-analyzer is empty and no parsed workload has this name:
+		// no routes/k8s-ingress objects -> ingress-controller pod will not be added
+		return false, netpolerrors.NoIngressSourcesErrStr + netpolerrors.EmptyConnListErrStr
 	}
 	return false, netpolerrors.WorkloadDoesNotExistErrStr(ca.focusWorkload)
 }
